@@ -15,6 +15,11 @@
 (*                   commands' Popens hold before the commands are waited  *)
 (*                   for front to back (FALSE: the write adapter closes    *)
 (*                   only the first stdin, the read adapter nothing)       *)
+(*   ErrPipeFix   -- a pipeline started for capture / communicate that fails *)
+(*                   part-way: the caller's read end of the shared stderr   *)
+(*                   pipe is released BEFORE the commands already started   *)
+(*                   are waited for (FALSE: it is still held while          *)
+(*                   Pipeline::popen() drops -- waits for -- them)          *)
 (* Children run one of a few programs (write more than the pipe holds,      *)
 (* read to end-of-file, copy stdin to stdout, exit).  A writer whose        *)
 (* reader is gone dies (SIGPIPE); a reader sees end-of-file when every      *)
@@ -28,7 +33,7 @@ EXTENDS Naturals, Sequences, FiniteSets, TLC
 
 CONSTANTS
   Cap, Amount,  \* pipe capacity, units a writer wants to write
-  CloseFirst, ReadPipeFix
+  CloseFirst, ReadPipeFix, ErrPipeFix
 
 \* the configuration is chosen in the initial state and never changes (so that one TLC run covers all of them)
 VARIABLES
@@ -36,13 +41,15 @@ VARIABLES
   StdinPiped, StdoutPiped,
   Progs         \* <<program of command 0, program of command 1>> (the second is ignored for one command)
 cfgv == <<Kind, StdinPiped, StdoutPiped, Progs>>
-Kinds == {"popen", "write_adapter", "read_adapter", "vec", "read_pipeline", "write_pipeline"}
-ProgSet == {"writer", "reader", "filter", "exit"}
+Kinds == {"popen", "write_adapter", "read_adapter", "vec", "vec_capture", "read_pipeline", "write_pipeline"}
+\* "ewriter" writes to its standard error (the shared capture pipe of "vec_capture", nowhere otherwise)
+ProgSet == {"writer", "reader", "filter", "exit", "ewriter"}
 
-N == IF Kind \in {"vec", "read_pipeline", "write_pipeline"} THEN 2 ELSE 1
+N == IF Kind \in {"vec", "vec_capture", "read_pipeline", "write_pipeline"} THEN 2 ELSE 1
 Children == 0..(N - 1)
 \* pipes: "in" = parent -> child 0, "link" = child 0 -> child 1, "out" = last child -> parent
-Pipes == {"in", "link", "out"}
+\* "errp" = every child's stderr -> parent (Pipeline::capture / communicate only)
+Pipes == {"in", "link", "out", "errp"}
 Parent == 9
 
 VARIABLES
@@ -73,6 +80,10 @@ Plan ==
     [] Kind = "read_pipeline"  ->
          (IF ReadPipeFix THEN (IF StdinPiped THEN <<<<"close", "in", "w">>>> ELSE <<>>) \o <<<<"close", "out", "r">>>> ELSE <<>>)
          \o VecDrop
+    [] Kind = "vec_capture" ->
+         \* setup_communicate: `self.stdout(Pipe).popen()?` -- the Vec of started commands is dropped inside popen()
+         \* while err_read is a local of the caller
+         IF ErrPipeFix THEN <<<<"close", "errp", "r">>>> \o VecDrop ELSE VecDrop \o <<<<"close", "errp", "r">>>>
     [] OTHER -> VecDrop
 
 Init ==
@@ -84,16 +95,18 @@ Init ==
   \* command's stdout was handed to the command that failed and is closed with it.  (A Vec<Popen> the caller got
   \* from Pipeline::popen() and drops with the last stdout unread can still hang -- TLC shows it -- but there the
   \* caller can release the pipe end first; C12 makes no promise about that.)
-  /\ Kind = "vec" => ~StdoutPiped
+  /\ Kind \in {"vec", "vec_capture"} => ~StdoutPiped
   /\ len = [p \in Pipes |-> 0]
   /\ wr = [p \in Pipes |-> CASE p = "in" -> IF StdinPiped THEN {Parent} ELSE {}
                              [] p = "link" -> IF N = 2 THEN {0} ELSE {}
+                             [] p = "errp" -> IF Kind = "vec_capture" THEN Children ELSE {}
                              [] OTHER -> IF StdoutPiped THEN {Last} ELSE {}]
   /\ rd = [p \in Pipes |-> CASE p = "in" -> IF StdinPiped THEN {0} ELSE {}
                              [] p = "link" -> IF N = 2 THEN {1} ELSE {}
+                             [] p = "errp" -> IF Kind = "vec_capture" THEN {Parent} ELSE {}
                              [] OTHER -> IF StdoutPiped THEN {Parent} ELSE {}]
   /\ cst = [i \in Children |-> "run"]
-  /\ left = [i \in Children |-> IF Progs[i + 1] = "writer" THEN Amount ELSE 0]
+  /\ left = [i \in Children |-> IF Progs[i + 1] \in {"writer", "ewriter"} THEN Amount ELSE 0]
   /\ owes = [i \in Children |-> 0]
   /\ step = 1
 
@@ -103,8 +116,20 @@ Die(i) ==   \* exit: every descriptor of the child closes
   /\ wr' = [p \in Pipes |-> wr[p] \ {i}]
   /\ rd' = [p \in Pipes |-> rd[p] \ {i}]
 
+ChildWriteErr(i) ==    \* one unit to stderr
+  /\ cst[i] = "run" /\ Progs[i + 1] = "ewriter" /\ left[i] > 0
+  /\ IF Kind # "vec_capture"
+     THEN left' = [left EXCEPT ![i] = @ - 1] /\ UNCHANGED <<len, wr, rd, cst>>      \* inherited stderr: never blocks
+     ELSE IF rd["errp"] = {}
+     THEN Die(i) /\ UNCHANGED <<len, left>>                                        \* SIGPIPE
+     ELSE /\ len["errp"] < Cap
+          /\ len' = [len EXCEPT !["errp"] = @ + 1]
+          /\ left' = [left EXCEPT ![i] = @ - 1]
+          /\ UNCHANGED <<wr, rd, cst>>
+  /\ UNCHANGED <<owes, step>>
+
 ChildWrite(i) ==       \* one unit to stdout (writer, or a filter that owes output)
-  /\ cst[i] = "run" /\ (left[i] > 0 \/ owes[i] > 0)
+  /\ cst[i] = "run" /\ Progs[i + 1] # "ewriter" /\ (left[i] > 0 \/ owes[i] > 0)
   /\ IF ~HasOut(i)
      THEN /\ left' = [left EXCEPT ![i] = IF @ > 0 THEN @ - 1 ELSE 0]
           /\ owes' = [owes EXCEPT ![i] = IF left[i] > 0 THEN @ ELSE @ - 1]
@@ -130,7 +155,7 @@ ChildRead(i) ==        \* reader / filter: one unit from stdin, or end-of-file
   /\ UNCHANGED step
 
 ChildExit(i) ==        \* a writer that has written everything, or the "exit" program
-  /\ cst[i] = "run" /\ left[i] = 0 /\ owes[i] = 0 /\ Progs[i + 1] \in {"writer", "exit"}
+  /\ cst[i] = "run" /\ left[i] = 0 /\ owes[i] = 0 /\ Progs[i + 1] \in {"writer", "exit", "ewriter"}
   /\ Die(i) /\ UNCHANGED <<len, left, owes, step>>
 
 \* ---------------------------------------------------------------- the dropping parent
@@ -149,7 +174,7 @@ ParentStep ==
 
 PlanDone == step > Len(Plan)
 Next ==
-  \/ (\E i \in Children : ChildWrite(i) \/ ChildRead(i) \/ ChildExit(i)) /\ UNCHANGED cfgv
+  \/ (\E i \in Children : ChildWrite(i) \/ ChildWriteErr(i) \/ ChildRead(i) \/ ChildExit(i)) /\ UNCHANGED cfgv
   \/ ParentStep /\ UNCHANGED cfgv
   \/ (PlanDone /\ UNCHANGED vars)
 Spec == Init /\ [][Next]_vars
